@@ -5,14 +5,22 @@
      exhaustively for plain/TLS x edge/level triggered: Inv_Stream (wire o queue o commands = accepted), Inv_WirePrefix,
      Inv_Read, Inv_NoStuck (lost wake-up as safety) and Live_Write / Live_Read under fairness.
   2. Self-test: each deviation flag (tail re-queued at the back, written prefix not erased, no EPOLLOUT after a short
-     direct write, read loop stops after a short read) must be rejected by TLC; the counterexamples become behaviours.
+     direct write, read loop stops after a short read, level-triggered read loop returns after one chunk - strands bytes
+     buffered in the SSL object, a send on the I/O thread overtakes accepted commands, a direct write although a tail is
+     still queued) must be rejected by TLC; the counterexamples become behaviours.
   3. Behaviours: transition-cover sample, per-action cover and random walks of the dumped graphs, projected onto their
      environment steps (sends, kernel room, injected error, peer writes, read cuts, handshake completion, closes); each is
      replayed on the real TcpEngine through Transport by harness/drv_tcpstream (fake kernel at send/write/recv/read,
      raw or OpenSSL-over-memory-BIO peer) over the matrix batching x edge/level x role x byte scale.
   4. Sweeps: the cut position of a short write over every byte of a payload (and pairs of cuts), plain and TLS.
   5. Concurrent stress: 1-4 sender threads, tiny socket buffers, slow peer, random short writes/reads.
-  6. Everything recorded is validated against the Abs oracle spec/transport/StreamTrace.tla; rejections are re-run.
+  6. Directed cases (byte-exact instances of behaviour shapes of the model): sends from inside a parked accept / connect /
+     data callback (the I/O thread itself) interleaved with worker sends whose send() has already returned; the receive
+     matrix {edge, level} x {plain, TLS} x {ioReadChunk 1 KiB, default} x {write larger than the chunk, several TLS records,
+     tail record larger than the chunk} followed by no traffic at all; a short write followed by another send dispatched in
+     the same process() pass while the kernel has room again (fake kernel AUTODRAIN, and the real kernel with a small
+     SO_SNDBUF and ~2 MiB payloads, both sends accepted while the I/O thread is parked).
+  7. Everything recorded is validated against the Abs oracle spec/transport/StreamTrace.tla; rejections are re-run.
 """
 import os, re, json, concurrent.futures as cf
 import vf
@@ -22,24 +30,28 @@ IMPL = os.path.join(SPECDIR, "TcpStream.tla")
 TRACE_TLA = os.path.join(SPECDIR, "StreamTrace.tla")
 TRACE_CFG = os.path.join(SPECDIR, "StreamTrace.cfg")
 INVS = ["Inv_Stream", "Inv_WirePrefix", "Inv_Read", "Inv_Types", "Inv_NoStuck"]
-DEVS = ["Dev_PartialTailToBack", "Dev_KeepWrittenPrefix", "Dev_NoRearmAfterShortSend", "Dev_StopReadAfterShort"]
+DEVS = ["Dev_PartialTailToBack", "Dev_KeepWrittenPrefix", "Dev_NoRearmAfterShortSend", "Dev_StopReadAfterShort",
+        "Dev_LtStopsAfterOneChunk", "Dev_IoSendBypassesQueue", "Dev_DirectWriteIgnoresQueue"]
 def temporal_violated(out):
     return bool(re.search(r"Temporal propert(y \w+ was|ies were) violated", out))
 
 
 IO_ACTIONS = ["ProcessClose", "DoSendDropClosed", "DoSendHandshakeQueue", "DoSendDirect", "DoSendEagain", "DoSendError",
               "QueueBack", "BackpressureClose", "EpollOutFires", "WpEmpty", "WritePendingError", "WritePendingEagain",
-              "WritePendingFull", "WritePendingPartial", "HandshakeDone", "EpollInFires", "Recv", "RecvEagain", "RecvZero"]
+              "WritePendingFull", "WritePendingPartial", "HandshakeDone", "EpollInFires", "Recv", "SslRead", "RecvEagain", "RecvZero",
+              "CbSend", "CbReturn"]
+DEV_ONLY_ACTIONS = ["DoSendDirectOvertake"]
 ENV_STEP = {"AppSend": "SEND {0} {1}", "AppClose": "CLOSE", "KernelDrain": "DRAIN {0}", "InjectErr": "ERR",
-            "PeerWrite": "PWRITE {0}", "PeerClose": "PCLOSE", "SetRcut": "RCUT {0}", "HandshakeDone": "HSDONE"}
-PARAMS = {"AppSend": "tn", "AppClose": "", "KernelDrain": "n", "InjectErr": "", "PeerWrite": "n", "PeerClose": "",
-          "SetRcut": "k", "HandshakeDone": ""}
+            "PeerWrite": "PWRITE {0}", "PeerWriteGated": "PWRITEG {0}", "PeerClose": "PCLOSE", "SetRcut": "RCUT {0}",
+            "HandshakeDone": "HSDONE"}
+PARAMS = {"AppSend": "tn", "AppClose": "", "KernelDrain": "n", "InjectErr": "", "PeerWrite": "n", "PeerWriteGated": "n", "PeerClose": "",
+          "SetRcut": "k", "HandshakeDone": "", "CbSend": "n"}
 MODEL_WQ = 2
 
 
 def consts(**kw):
     d = dict(Threads='{"t1", "t2"}', MaxSends=3, MaxLen=2, MaxRoom=2, MaxWq=MODEL_WQ, Tls=False, ET=True, PeerBytes=1, MaxRcut=1,
-             AllowClose=True)
+             AllowClose=True, Chunk=3, RecMax=3, AllowCb=False)
     for f in DEVS:
         d[f] = False
     d.update(kw)
@@ -59,24 +71,61 @@ POPS_CMD = {"ProcessClose", "DoSendDropClosed", "DoSendHandshakeQueue", "DoSendD
 def project(labels):
     """behaviour (edge labels) -> its environment steps (what the driver performs); I/O-thread actions happen by themselves.
     The driver is sequential (the engine is quiescent between steps), so an application command is issued at the point
-    where the behaviour PROCESSES it (the command queue is FIFO): the kernel room the command meets is then the model's."""
+    where the behaviour PROCESSES it (the command queue is FIFO): the kernel room the command meets is then the model's.
+    Exception: the parked data callback.  PeerWriteGated becomes PWRITEG at the point where its delivering read enters the
+    callback (the real I/O thread parks there); commands accepted but not yet processed at that point, and every AppSend /
+    CbSend while it is parked, are issued right then (their send() returns, the command waits in the queue) - which is
+    exactly the state 'accepted by other threads, not yet dispatched' the behaviour is in; CbReturn = RELEASE."""
     steps, names, pending = [], [], []
+    gate_pending, parked = None, False
+
+    def park():
+        nonlocal gate_pending, parked
+        steps.append(gate_pending)
+        gate_pending, parked = None, True
+        for k, st in enumerate(pending):
+            if st and st.startswith("SEND"):
+                steps.append(st)
+                pending[k] = None
     for lab in labels:
         name, args = vf.label_thread(lab)
         names.append(name)
         if name in ("AppSend", "AppClose"):
-            pending.append(ENV_STEP[name].format(*args))
+            st = ENV_STEP[name].format(*args)
+            if parked and name == "AppSend":
+                steps.append(st)
+                pending.append(None)
+            else:
+                pending.append(st)
+        elif name == "CbSend":
+            steps.append("CBSEND %s" % args[0])
+            pending.append(None)
         elif name in POPS_CMD:
             if pending:
-                steps.append(pending.pop(0))
+                st = pending.pop(0)
+                if st:
+                    steps.append(st)
+        elif name == "PeerWriteGated":
+            gate_pending = ENV_STEP[name].format(*args)
+        elif name in ("Recv", "SslRead") and gate_pending:
+            park()
+        elif name == "CbReturn":
+            steps.append("RELEASE")
+            parked = False
         elif name in ENV_STEP:
+            if name == "PeerWrite" and gate_pending:
+                park()                      # (keep the peer's writes in the behaviour's order)
             steps.append(ENV_STEP[name].format(*args))
-        elif name not in IO_ACTIONS:
+        elif name not in IO_ACTIONS and name not in DEV_ONLY_ACTIONS:
             raise vf.Infra("unknown Impl action in behaviour: " + lab)
-    return steps + pending, names
+    if gate_pending:
+        park()
+    if parked:
+        steps.append("RELEASE")
+    return steps + [st for st in pending if st], names
 
 
-def seq_case(steps, tls, i, scale=None, pcut=None):
+def seq_case(steps, tls, i, scale=None, pcut=None, extra="", force=None):
     et = 0 if i % 4 == 3 else 1
     batch = 1 if i % 3 == 2 else 0
     role = "cli" if i % 5 in (3, 4) else "srv"
@@ -84,8 +133,12 @@ def seq_case(steps, tls, i, scale=None, pcut=None):
         scale = ([1, 40, 1000, 20000] if tls else [1, 3, 1000, 20000])[(i // 2) % 4]
     if pcut is None:          # the peer writes in pieces of pcut bytes (0 = whole): cuts inside TLS records / plain payloads
         pcut = ([0, 700, 4099, 0] if scale >= 1000 else [0, 1, 5, 0])[(i // 3) % 4]
-    return "mode=seq tls=%d et=%d batch=%d role=%s wq=%d scale=%d pcut=%d ; %s" % (
-        tls, et, batch, role, MODEL_WQ, scale, pcut, " ; ".join(steps))
+    if force:
+        et, batch, role = force.get("et", et), force.get("batch", batch), force.get("role", role)
+    if callable(extra):
+        extra = extra(scale)
+    return "mode=seq tls=%d et=%d batch=%d role=%s wq=%d scale=%d pcut=%d %s; %s" % (
+        tls, et, batch, role, force.get("wq", MODEL_WQ) if force else MODEL_WQ, scale, pcut, extra + " " if extra else "", " ; ".join(steps))
 
 
 def action_cover(g, rng, per_action, maxlen):
@@ -167,15 +220,66 @@ def conc_cases(thorough, rng):
     return out
 
 
+def directed_cases(thorough):
+    """byte-exact instances of behaviour shapes of TcpStream.tla that need concrete sizes / the real kernel / the connect
+    callback.  -> [(case line, kind)]"""
+    out = []
+    k = 0
+    # (a) sends from the accept / connect callback (the I/O thread parks there: gateconn=1) interleaved with worker sends that
+    #     have already returned; batches of both; with and without command batching, plain and TLS, engine as server / client
+    shapes = [["SEND t2 2", "CBSEND 1", "RELEASE"], ["SEND t2 1", "SEND t3 2", "CBSEND 2", "CBSEND 1", "RELEASE"],
+              ["CBSEND 1", "SEND t2 2", "CBSEND 2", "SEND t3 1", "RELEASE"], ["SEND t2 2", "SEND t3 1", "SEND t4 1", "CBSEND 1", "CBSEND 1", "CBSEND 2", "RELEASE"]]
+    for tls in (0, 1):
+        for role in ("srv", "cli"):
+            for batch in (0, 1):
+                for sh in shapes:
+                    pre = ["DRAIN 40"] if k % 2 else []
+                    post = [] if k % 2 else ["DRAIN 1", "DRAIN 40"]
+                    out.append((seq_case(pre + sh + post, tls, k, scale=[1, 1000, 9000][k % 3], pcut=0, extra="gateconn=1",
+                                         force={"batch": batch, "role": role, "et": 1 if k % 4 else 0, "wq": 64}), "cb-connect"))
+                    k += 1
+    # (b) receive side, then NO further traffic: {edge, level} x {plain, TLS} x {ioReadChunk 1 KiB, default} x {one peer write
+    #     larger than the chunk, several TLS records, a tail record larger than the chunk}
+    for et in (1, 0):
+        for tls in (0, 1):
+            for chunk, sizes in ((1024, [3000, 40000, 18432, 16384 + 1025]), (0, [70000, 150000])):
+                for n in sizes:
+                    pre = ["HSDONE"] if tls else []
+                    for batch in ((0, 1) if thorough else (k % 2,)):
+                        out.append((seq_case(pre + ["PWRITE %db" % n], tls, k, scale=1, pcut=0, extra="chunk=%d" % chunk,
+                                             force={"et": et, "batch": batch, "role": "srv" if k % 3 else "cli"}), "read-chunk"))
+                        k += 1
+    # (c) a short write, then another send dispatched in the same process() pass while the tail is queued and the kernel has
+    #     room again: fake kernel (AUTODRAIN = room appears right after the short write) and the real kernel (small SO_SNDBUF,
+    #     ~2 MiB payload, both sends accepted while the I/O thread is parked)
+    for batch in (0, 1):
+        for role in ("srv", "cli"):
+            for c1, l1, l2, ad in ((1, 3, 1, 2), (2, 5, 2, 3), (1, 2, 1, 1), (3, 4, 3, 9)):
+                steps = ["DRAIN %d" % c1, "PWRITEG 1", "SEND t2 %d" % l1, "SEND t3 %d" % l2, "AUTODRAIN %d" % ad, "RELEASE", "DRAIN 40"]
+                out.append((seq_case(steps, 0, k, scale=[1, 700][k % 2], pcut=0, force={"batch": batch, "role": role, "et": 1 if k % 3 else 0, "wq": 64}),
+                            "overtake-fake"))
+                k += 1
+            for big, small, sb in ((2097152, 1000, 4096), (1500000, 1, 2304), (2097152, 60000, 8192)):
+                steps = ["PWRITEG 1b", "SEND t2 %db" % big, "SEND t3 %db" % small, "SEND t2 7b", "RELEASE"]
+                out.append((seq_case(steps, 0, k, scale=1, pcut=0, extra="fake=0 sndbuf=%d rcvbuf=%d" % (sb, sb),
+                                     force={"batch": batch, "role": role, "et": 1 if k % 3 else 0, "wq": 64}), "overtake-real"))
+                k += 1
+    return out
+
+
 def run(ck):
     thorough = ck.tier == "thorough"
     ck.make("drv_tcpstream")
     ck.rule = ("(a) behaviours of TcpStream.tla (sample of the transition cover + per-action cover + random walks of the dumped "
-               "graphs, plain and TLS, plus the TLC counterexamples of the four deviation flags), projected onto their environment "
+               "graphs, plain and TLS - incl. sends from the parked data callback and read chunks smaller than a TLS record - plus the "
+               "TLC counterexamples of the seven deviation flags), projected onto their environment "
                "steps and replayed on the real TcpEngine through Transport with a fake kernel at the system-call boundary, over "
                "batching on/off, edge/level-triggered, engine as server/client, 1..20000 bytes per model unit; (b) sweeps of the "
                "cut position of a short write over every byte (and pairs of cuts), plain and TLS ciphertext; (c) concurrent "
-               "stress with 1-4 sender threads, tiny socket buffers, a slow peer and random short writes/reads.  Non-trivial = "
+               "stress with 1-4 sender threads, tiny socket buffers, a slow peer and random short writes/reads; (d) directed cases: sends "
+               "from the parked accept/connect callback mixed with accepted worker sends, the receive-chunk matrix (edge/level x "
+               "plain/TLS x ioReadChunk 1 KiB/default x sizes) with no traffic afterwards, short write + second send in one "
+               "process() pass on the fake and on the real kernel (SO_SNDBUF 2304..8192, ~2 MiB).  Non-trivial = "
                "the execution contains a short or refused write (cut, EAGAIN, injected error), a send queued behind another or "
                "during the TLS handshake, a short read, or concurrent senders.")
     # ---- 1. exhaustive model checking -----------------------------------------------------------------------------------
@@ -190,17 +294,33 @@ def run(ck):
         mc.append(("mcw_%s" % ("tls" if tls else "plain"),
                    consts(Tls=tls, MaxSends=4 if thorough else 3, MaxLen=3, MaxRoom=3, PeerBytes=0, AllowClose=False), False))
 
+    for tls in (False, True):
+        # sends from inside the (parked) data callback, interleaved with worker sends
+        mc.append(("mc_cb_%s" % ("tls" if tls else "plain"), consts(Tls=tls, AllowCb=True, AllowClose=False, MaxSends=4 if thorough else 3), False))
+        for et in (True, False):
+            # read chunk smaller than a TLS record / than what is waiting: 3 peer bytes, ioReadChunk 1, records of 2
+            mc.append(("mc_rd_%s_%s" % ("tls" if tls else "plain", "et" if et else "lt"),
+                       consts(Tls=tls, ET=et, MaxSends=1, MaxLen=1, PeerBytes=3, MaxRcut=2, Chunk=1, RecMax=2), False))
+
     def job_mc(j):
         name, c, cov = j
         return vf.run_tlc(IMPL, cfg_file(ck, name, c, invariants=INVS), tag="C01_" + name, workers=3, coverage=cov, timeout=1500)
 
     def job_live(tls):
-        c = consts(Tls=bool(tls), MaxSends=2, AllowClose=False)
+        c = consts(Tls=bool(tls), MaxSends=2, AllowClose=False) if tls < 2 else \
+            consts(Tls=True, ET=False, MaxSends=1, MaxLen=1, PeerBytes=3, Chunk=1, RecMax=2, AllowClose=False)
         return vf.run_tlc(IMPL, cfg_file(ck, "live%d" % tls, c, spec="FairSpec", invariants=INVS, properties=["Live_Write", "Live_Read"]),
                           tag="C01_live%d" % tls, workers=3, timeout=1500)
 
+    RD = dict(MaxSends=1, MaxLen=1, PeerBytes=3, Chunk=1, RecMax=2, AllowClose=False)
+    rd_extra = lambda scale: "chunk=%d rec=%d" % (scale, min(16384, 2 * scale))
+    # per deviation: model constants, and how its counterexample is run on the code (tls, extra case keys, forced matrix cell)
+    DEV_CFG = {"Dev_LtStopsAfterOneChunk": (dict(Tls=True, ET=False, **RD), 1, rd_extra, {"et": 0}),
+               "Dev_IoSendBypassesQueue": (dict(AllowCb=True, AllowClose=False, MaxSends=2), 0, "", None),
+               "Dev_DirectWriteIgnoresQueue": (dict(MaxSends=2, AllowClose=False), 0, "", None)}
+
     def job_dev(flag):
-        c = consts(MaxSends=2, PeerBytes=2, MaxRcut=2, **{flag: True})
+        c = consts(**dict(DEV_CFG[flag][0], **{flag: True})) if flag in DEV_CFG else consts(MaxSends=2, PeerBytes=2, MaxRcut=2, **{flag: True})
         cex = os.path.join(ck.work, "cex_%s.json" % flag)
         return vf.run_tlc(IMPL, cfg_file(ck, "dev_" + flag, c, invariants=INVS), tag="C01_" + flag, workers=1, dump_trace=cex)
 
@@ -212,7 +332,10 @@ def run(ck):
     # a nearly full kernel (reaches QueueBack and the backpressure close with maxWriteQueue = 2)
     GEN = {"g1": dict(MaxSends=2, PeerBytes=1, AllowClose=False), "g2": dict(MaxSends=3, MaxRoom=1, PeerBytes=0, AllowClose=False),
            "g3": dict(MaxSends=1, MaxLen=1, MaxRoom=1, PeerBytes=2, MaxRcut=2, AllowClose=False),   # the read side, short reads
-           "g4": dict(MaxSends=2, MaxLen=1, MaxRoom=1, PeerBytes=1)}                                # with closes
+           "g4": dict(MaxSends=2, MaxLen=1, MaxRoom=1, PeerBytes=1),                                # with closes
+           "g5": dict(MaxSends=3, MaxLen=1, MaxRoom=2, PeerBytes=1, AllowCb=True, AllowClose=False), # sends from the parked data callback
+           "g6": dict(MaxRoom=1, MaxRcut=2, **RD)}                                                  # read chunk < record
+    GEN_EXTRA = {"g6": rd_extra}
 
     def job_gen(key):
         tls, gname = key
@@ -223,7 +346,7 @@ def run(ck):
 
     with cf.ThreadPoolExecutor(max_workers=8) as ex:
         f_mc = [(j, ex.submit(job_mc, j)) for j in mc]
-        f_live = {t: ex.submit(job_live, t) for t in (0, 1)}
+        f_live = {t: ex.submit(job_live, t) for t in (0, 1, 2)}     # 2 = TLS, level-triggered, chunk < record
         f_dev = {f: ex.submit(job_dev, f) for f in DEVS}
         f_devlive = ex.submit(job_devlive)
         f_gen = {(t, gname): ex.submit(job_gen, (t, gname)) for t in (0, 1) for gname in GEN}
@@ -252,6 +375,8 @@ def run(ck):
     for a in IO_ACTIONS + list(ENV_STEP):
         if ck.cov.get(a, 0) == 0:
             raise vf.Infra("self-test: Impl action %s never taken in the coverage runs" % a)
+    for key, (r, dot) in r_gen.items():
+        pass
     for t, r in r_live.items():
         if r.error or not r.ok:
             if temporal_violated(r.out):
@@ -261,7 +386,8 @@ def run(ck):
                 raise vf.Infra("TLC liveness run failed (Tls=%d): %s" % (t, r.error))
         ck.states += r.distinct
         ck.transitions += r.generated
-        ck.note("TLC TcpStream liveness under fairness (Tls=%d): Live_Write, Live_Read hold: %s" % (t, r.summary()))
+        ck.note("TLC TcpStream liveness under fairness (%s): Live_Write, Live_Read hold: %s" % (
+            ["plain", "TLS", "TLS level-triggered, read chunk < record"][t], r.summary()))
 
     # ---- 2. deviation self-test; counterexamples become behaviours --------------------------------------------------------
     seq = []        # (tls, steps, names, kind)
@@ -276,7 +402,8 @@ def run(ck):
             labs.append("%s(%s)" % (name, ",".join(str(ctx[k]) for k in PARAMS.get(name, "") if k in ctx)))
         steps, names = project(labs)
         ck.note("deviation %s: TLC reports %s after %d steps: %s" % (flag, r.violated, len(labs), " ".join(labs)))
-        seq.append((0, steps, names, "probe"))
+        _, ptls, pextra, pforce = DEV_CFG.get(flag, (None, 0, "", None))
+        seq.append((ptls, steps, names, "probe", pextra, pforce))
     if not temporal_violated(r_devlive.out):
         raise vf.Infra("self-test: FairSpec with Dev_NoRearmAfterShortSend=TRUE should violate Live_Write: " + (r_devlive.error or "")[-400:])
     ck.sample({"kind": "TLC counterexample of Dev_PartialTailToBack, replayed on the real engine", "steps": seq[0][1]})
@@ -290,9 +417,9 @@ def run(ck):
         g = vf.Graph.load(dot)
         os.remove(dot)
         # behaviours are cut at moderate lengths: one that runs on until a close ends the session says little at its End
-        paths, covered, total = g.transition_cover(ck.rng, maxlen=14, limit=6000 if thorough else 250)
+        paths, covered, total = g.transition_cover(ck.rng, maxlen=14, limit=6000 if thorough else 200)
         acov = action_cover(g, ck.rng, 40 if thorough else 6, 6)
-        walks = [g.walk_to_end(ck.rng.choice(g.init), ck.rng, ck.rng.randrange(4, 24)) for _ in range(1500 if thorough else 80)]
+        walks = [g.walk_to_end(ck.rng.choice(g.init), ck.rng, ck.rng.randrange(4, 24)) for _ in range(1500 if thorough else 60)]
         before = len(seq)
         seen = set()
         for pth in acov + paths + walks:
@@ -301,21 +428,22 @@ def run(ck):
             if not steps or key in seen:
                 continue
             seen.add(key)
-            seq.append((tls, steps, names, "graph"))
+            seq.append((tls, steps, names, "graph", GEN_EXTRA.get(gname, ""), None))
         ck.note("generation graph Tls=%d %s: %d states, %d edges; %d cover (%d/%d edges) + %d per-action + %d random-walk behaviours -> %d "
                 "distinct environment-step sequences" % (tls, gname, r.distinct, g.n_edges(), len(paths), covered, total, len(acov), len(walks),
                                                          len(seq) - before))
-    taken = set(n for _, _, names, _ in seq for n in names)
+    taken = set(n for x in seq for n in x[2])
     missing = [a for a in IO_ACTIONS + list(ENV_STEP) if a not in taken]
     if missing:
         raise vf.Infra("self-test: the generated behaviours never take Impl action(s) %s" % missing)
 
     cases = []      # (line, kind, nontrivial)
-    for i, (tls, steps, names, kind) in enumerate(seq):
+    for i, (tls, steps, names, kind, extra, force) in enumerate(seq):
         nt = bool({"DoSendEagain", "QueueBack", "WritePendingPartial", "WritePendingEagain", "DoSendHandshakeQueue", "DoSendError",
                    "WritePendingError", "BackpressureClose"} & set(names)) or any(
-            n == "DoSendDirect" for n in names) and "WritePendingFull" in names or "SetRcut" in names
-        cases.append((seq_case(steps, tls, i), kind, nt))
+            n == "DoSendDirect" for n in names) and "WritePendingFull" in names or "SetRcut" in names or "CbSend" in names \
+            or bool(extra)
+        cases.append((seq_case(steps, tls, i, extra=extra, force=force), kind, nt))
     ck.sample({"kind": "behaviour (case line for drv_tcpstream)", "case": cases[len(cases) // 2][0]})
     # ---- 4. sweeps, 5. concurrent stress ----------------------------------------------------------------------------------
     sw = sweep_cases(thorough, ck.rng)
@@ -324,7 +452,12 @@ def run(ck):
     cc = conc_cases(thorough, ck.rng)
     for line in cc:
         cases.append((line, "conc", True))
-    ck.note("cases: %d behaviours, %d sweep cases, %d concurrent stress cases" % (len(seq), len(sw), len(cc)))
+    dc = directed_cases(thorough)
+    for line, kind in dc:
+        cases.append((line, kind, True))
+    ck.note("cases: %d behaviours, %d sweep cases, %d concurrent stress cases, %d directed cases (%s)" % (
+        len(seq), len(sw), len(cc), len(dc), ", ".join("%d %s" % (sum(1 for _, k in dc if k == kind), kind)
+                                                      for kind in ("cb-connect", "read-chunk", "overtake-fake", "overtake-real"))))
     ck.sample({"kind": "sweep case", "case": cases[len(seq) + len(sw) // 2][0]})
     ck.sample({"kind": "concurrent stress case", "case": cc[0]})
 
